@@ -1,19 +1,26 @@
 """C14 — style inheritance resolves to the nearest definition and always terminates (spec module StyleInh)."""
-import concurrent.futures, json, os, zlib
+import concurrent.futures, json, os, threading, time, zlib
 
 MANIFEST = dict(
     module="StyleInh", ref="§5 C14",
     text="The reference resolver of StyleInh.tla (nearest definition along basedOn with a visited set) is model-checked over "
          "every registry of the bound (all basedOn graphs incl. self loops, cycles and missing parents, all set/unset masks, "
-         "all queried ids) against an independent bounded-search characterisation, a recursive law and a frame property; "
-         "TLC then enumerates every (registry, queried id) input once and generates random operation sequences, each is "
-         "executed on real StyleManager objects (every one of the 18 paragraph/character elements in turn playing the "
-         "enumerated mask, in a child process because a based-on cycle can kill the process) and the owner of every "
-         "element of every result, the deep fingerprint of the registry before/after every call and the independence of "
-         "clones are judged by StyleInh_Trace.tla. Exhaustive small-scope enumeration is the right level for a claim over "
-         "all graphs and attribute subsets of a hand-written per-attribute merge.",
-    technique="TLA+ spec StyleInh; TLC exhaustive MC of the reference resolver + TLC-enumerated inputs and simulated "
-              "sequences replayed on the library (supervised child process) + TLC trace judge",
+         "all queried ids) against an independent bounded-search characterisation, a recursive law and a frame property; the "
+         "pair (registry, copy taken by Clone) is model-checked as a machine of two registries with separate histories "
+         "(snapshot and isolation as action properties). TLC then enumerates every (registry, queried id) input once, every "
+         "read / change / read-again history with a copy taken before the change and read for the first time after it, "
+         "every based-on graph that refers to a parent by an alias of a style (its display name, its id in other letter "
+         "case or with a blank, the label of the library's predefined tables: all undefined ids), every registry written "
+         "as a styles part and handed to the three XML loaders, and generates random operation sequences over both "
+         "registries; each is executed on real StyleManager objects (every one of the 18 paragraph/character elements in "
+         "turn playing the enumerated mask, in a child process because a based-on cycle can kill the process). The copy is "
+         "never looked at by the executor except through the operations the behaviour addresses to it, so when a style of "
+         "the copy is first read is part of the behaviour. The owner of every element of every result, the deep fingerprint "
+         "of the registry before/after every call and the independence of the two registries are judged by "
+         "StyleInh_Trace.tla. Exhaustive small-scope enumeration is the right level for a claim over all graphs and "
+         "attribute subsets of a hand-written per-attribute merge.",
+    technique="TLA+ spec StyleInh; TLC exhaustive MC of the reference resolver and of the registry/copy pair + TLC-enumerated "
+              "inputs and histories and simulated sequences replayed on the library (supervised child process) + TLC trace judge",
 )
 
 LEVEL = "model_checking"
@@ -22,20 +29,36 @@ RULE = ("inputs = every registry over N style ids (basedOn of each style in ids 
         "in bounds × every queried id incl. an undefined one, enumerated by TLC exactly once; each input is executed with "
         "20 concrete attribute→slot assignments (each of the 18 formatting elements alone in x with the other 17 in y; "
         "paragraph-level vs character-level both ways) through Load, GetStyleWithInheritance, ApplyStyleToXML, "
-        "GetStyleInfo (+ Clone ops, resolution on the clone, write-through-the-result probe); plus seeded random "
-        "sequences of AddStyle/RemoveStyle/CreateCustomStyle/queries/listings/Clone; judged step by step by StyleInh_Trace.tla")
+        "GetStyleInfo (+ Clone ops, resolution on the clone, write-through-the-result probe); histories = every 2-style "
+        "registry × queried id × single registry change (AddStyle / RemoveStyle / CreateCustomStyle / in-place edit): resolve, "
+        "Clone, change, resolve, then on the copy: first read of the same id, Peek, the same change, Peek; alias graphs = "
+        "every 2-style graph with a parent named by an alias (name / case / blank / label) × every id and alias queried; "
+        "styles parts = every 2-style registry through ParseStylesFromXML / MergeStylesFromXML / LoadStylesFromDocument; plus "
+        "seeded random sequences of all operations on the registry and on its copy; judged step by step by StyleInh_Trace.tla")
 
-ALLOPS = {"AddStyle", "RemoveStyle", "Create", "Edit", "Resolve", "ToXML", "Info", "List", "MutRes", "CloneSwap", "CloneDrop"}
+ALLOPS = {"AddStyle", "RemoveStyle", "Create", "Edit", "Resolve", "ToXML", "Info", "List", "MutRes", "CloneSwap", "CloneDrop",
+          "Clone", "OnClone", "LoadXML"}
+KINDS = ["space", "name", "case", "label"]     # StyleInh!AliasKinds
+PAIR_OPS = {"AddStyle", "RemoveStyle", "Edit", "Resolve", "Clone", "OnClone"}
 
 
-def enumcfg(ctx, name, n, ymodes, tail):
-    return ctx.cfg(name, "SpecEnum", {"NStyles": n, "TwoSlots": True, "YModes": set(ymodes), "TailMode": tail,
+def enumcfg(ctx, name, n, ymodes, plans, kinds=(), reads=()):
+    return ctx.cfg(name, "SpecEnum", {"NStyles": n, "TwoSlots": True, "YModes": set(ymodes), "Kinds": set(kinds),
+                                      "Plans": set(plans), "CloneReads": set(reads),
                                       "Depth": 0, "OpNames": set()}, invariants=["EmitEnum", "Inv_EnumSound"])
 
 
-def simcfg(ctx, name, n, depth):
-    return ctx.cfg(name, "SpecGen", {"NStyles": n, "TwoSlots": True, "YModes": set(), "TailMode": "none",
-                                     "Depth": depth, "OpNames": ALLOPS}, invariants=["Emit"])
+def simcfg(ctx, name, n, depth, kinds):
+    return ctx.cfg(name, "SpecGen", {"NStyles": n, "TwoSlots": True, "YModes": set(), "Kinds": set(kinds), "Plans": set(),
+                                     "CloneReads": set(), "Depth": depth, "OpNames": ALLOPS}, invariants=["Emit"])
+
+
+def paircfg(ctx, name, n):
+    """The pair (registry, copy) as a machine: snapshot + isolation, stated as action properties."""
+    return ctx.cfg(name, "SpecMC", {"NStyles": n, "TwoSlots": False, "YModes": set(), "Kinds": set(), "Plans": set(),
+                                    "CloneReads": set(), "Depth": 0, "OpNames": PAIR_OPS},
+                   invariants=["Inv_Terminates", "Inv_Found", "Inv_Undef", "Inv_ReadOnly", "Inv_CopySound"],
+                   properties=["Act_Snapshot", "Act_Isolated", "Act_ReadOnly", "Act_OwnWins"], view="MCView")
 
 
 def exec_grouped(ctx, cases, tag, nb=12):
@@ -71,7 +94,8 @@ def account(ctx, obs, tag):
             if '"ev":"step"' not in line:
                 continue
             e = json.loads(line)
-            k = "%s:%s" % (e["op"]["op"], e["ret"])
+            o = e["op"]
+            k = "%s:%s" % ("OnClone(%s)" % o["o"]["op"] if o["op"] == "OnClone" else o["op"], e["ret"])
             ops[k] = ops.get(k, 0) + 1
             n += 1
     return n
@@ -86,7 +110,79 @@ def judge(ctx, obs, tag):
             info.append(w["sig"][1:])
 
 
+TAGNO = {"enum3": 1, "rmr2": 2, "enum4": 3, "sim": 4}
+
+
+def gen(ctx, tag, *a, **kw):
+    """tlc_gen, then case ids that depend on the plan only (the generation runs of the quick tier are started together,
+    the driver numbers cases by the order in which runs end)."""
+    cases = ctx.tlc_gen("StyleInh_MC.tla", *a, **kw)
+    for i, c in enumerate(cases):
+        c["id"] = TAGNO[tag] * 10000000 + i + 1
+    ctx.cases_by_tag[tag] = {c["id"]: c for c in cases}
+    return cases
+
+
+def split_obs(path, k):
+    """Cut an observation file into k files of whole behaviours (the judge starts afresh at every reset line)."""
+    parts = ["%s.part%d" % (path, i) for i in range(k)]
+    outs = [open(pp, "w") for pp in parts]
+    n = -1
+    with open(path) as f:
+        for line in f:
+            if '"ev":"reset"' in line[:60]:
+                n += 1
+            outs[max(n, 0) % k].write(line)
+    for o in outs:
+        o.close()
+    return parts
+
+
+class Background:
+    """Runs jobs that each start exactly ONE TLC run next to the main line of the pipeline (the model checks and the
+    judge of a finished observation file do not depend on what the main line does meanwhile).  start() returns only
+    after the job's TLC run has taken its sequence number from the driver, so no two runs are ever started at once."""
+
+    def __init__(self, ctx):
+        self.ctx, self.jobs = ctx, []
+
+    def start(self, fn, *a, cap=None, **kw):
+        while cap and sum(1 for t, _ in self.jobs if t.is_alive()) >= cap:
+            time.sleep(0.05)        # at most cap jobs at a time (the main line waits)
+        seq, box = self.ctx.tlc_seq, {}
+
+        def body():
+            try:
+                box["r"] = fn(*a, **kw)
+            except BaseException as e:      # re-raised by join() on the main line
+                box["e"] = e
+        t = threading.Thread(target=body)
+        t.start()
+        while self.ctx.tlc_seq == seq and t.is_alive():
+            time.sleep(0.01)
+        self.jobs.append((t, box))
+
+    def wait(self):
+        for t, _ in self.jobs:
+            t.join()
+
+    def join(self):
+        self.wait()
+        for _, box in self.jobs:
+            if "e" in box:
+                raise box["e"]
+
+
 def pipeline(ctx, cases_by=None):
+    bg = Background(ctx)
+    try:
+        rc = pipeline1(ctx, bg, cases_by)
+    finally:
+        bg.wait()       # nothing of ours keeps running, whatever happened
+    return rc
+
+
+def pipeline1(ctx, bg, cases_by):
     q = ctx.tier == "quick"
     ctx.assumptions += [
         "element granularity: a style that sets a formatting element sets all of its sub-attributes (e.g. all four of "
@@ -101,6 +197,22 @@ def pipeline(ctx, cases_by=None):
         "they are logged as skipped (see op_outcomes) and judged by nothing",
         "writing through the object returned by GetStyleWithInheritance changes the registry (the result is the registered "
         "object or shares its parts); C14 constrains resolution, not the caller, so this is recorded, not judged",
+        "the copy taken by the abstract operation Clone is observed only through the operations addressed to it (OnClone; "
+        "Peek = GetStyle + StyleExists of every id of the behaviour and GetAllStyles); between two Peeks the judge follows "
+        "the copy by the specification alone (the source as it was when Clone was called + what was addressed to the copy), "
+        "the source is projected and fingerprinted after every step, also after steps addressed to the copy",
+        "an in-place edit (Edit) adds formatting elements to the registered object and re-points its basedOn (through the "
+        "existing w:basedOn object or by replacing it, per behaviour); it does not remove elements or rewrite the values "
+        "of elements the style already sets",
+        "aliases: display name = 'name of <id>' (every style of a behaviour that uses a name alias gets one), other letter "
+        "case = ASCII letters swapped, blank = id followed by a space, label = the entry of GetPredefinedStyleNames / "
+        "GetPredefinedStyleConfigs for that id; an id without such a form (no letters, the other-case form is an id of the "
+        "behaviour too, not a predefined id) is concretised as just another undefined id",
+        "what an XML loader does with a styles part (accept it or not, which registry results) is outside C14: it is "
+        "recorded under observations_not_judged; C14 is judged on whatever registry the loader left behind. On this tree "
+        "the three loaders reject every input (see observations_not_judged), so the styles-part origin currently "
+        "contributes no registries; LoadStylesFromDocument then re-registers the predefined styles (behaviours that use "
+        "it take ids that are not predefined)",
     ]
     if ctx.wzh is None:
         ctx.build_harness()
@@ -109,53 +221,80 @@ def pipeline(ctx, cases_by=None):
         judge(ctx, obs, "replay")
         return ctx.finish(LEVEL, RULE)
 
-    ctx.tlc_mc("StyleInh_MC.tla", "StyleInh_MC_quick.cfg" if q else "StyleInh_MC_two.cfg", timeout=600)
+    bg.start(ctx.tlc_mc, "StyleInh_MC.tla", "StyleInh_MC_quick.cfg" if q else "StyleInh_MC_two.cfg", timeout=600, workers=4)
+    bg.start(ctx.tlc_mc, "StyleInh_MC.tla", paircfg(ctx, "pair.cfg", 1 if q else 2), timeout=600, workers=2 if q else 4)
     # (the 4-style registries are checked against the same design-level statements while they are
     #  enumerated: Inv_EnumSound in enum4.cfg; StyleInh_MC_thorough.cfg is the stand-alone 4-style run)
 
     bounds = {}
+    reads = ["Resolve", "ToXML"]
     if q:
-        cases = ctx.tlc_gen("StyleInh_MC.tla", enumcfg(ctx, "enum3.cfg", 3, ["compl"], "none"), "enum3", timeout=600)
+        reads = [reads[(ctx.seed + 1) % 2]]     # seed 1: Resolve
+    d = 7 if q else 12
+    kinds = [KINDS[ctx.seed % 4]] if q else KINDS      # seed 1: name, 2: case, 3: label, 4: space
+    plans = [
+        ("enum3", (enumcfg(ctx, "enum3.cfg", 3, ["compl"] if q else ["free"], ["plain"] if q else ["clone"]), "enum3"), dict(timeout=900)),
+        ("rmr2", (enumcfg(ctx, "rmr2.cfg", 2, ["compl"] if q else ["free"], ["rmr", "clone", "alias", "xml"] if q else ["rmr", "alias", "xml"],
+                          KINDS, reads), "rmr2"), dict(timeout=900)),
+        ("enum4", (enumcfg(ctx, "enum4.cfg", 4, ["compl"], ["plain"]), "enum4"), dict(timeout=1200)),
+        ("sim", (simcfg(ctx, "gen_sim.cfg", 3 if q else 4, d, kinds), "sim"),
+         dict(mode="sim", num=45 if q else 400, depth=d + 1, limit=1500 if q else 12000)),
+    ]
+    if q:
+        plans = [pl for pl in plans if pl[0] != "enum4"]
+    # the generation runs are started together, next to the main line (which executes what is ready); every observation
+    # file is judged next to the main line as soon as it is complete, in pieces of whole behaviours
+    got = {}
+
+    def produce(tag, a, kw):
+        got[tag] = gen(ctx, tag, *a, **kw)
+    for tag, a, kw in plans:
+        bg.start(produce, tag, a, kw)
+
+    def cases_of(tag):
+        while tag not in got:
+            if not any(t.is_alive() for t, _ in bg.jobs):
+                bg.join()
+                raise RuntimeError("generation of %s ended without cases" % tag)
+            time.sleep(0.05)
+        return got[tag]
+
+    def judged(obs, tag, k=1):
+        if not q:
+            k = max(1, sum(1 for _ in open(obs)) // 150000)
+        for part in (split_obs(obs, k) if k > 1 else [obs]):
+            bg.start(judge, ctx, part, tag, cap=8 if q else 7)
+
+    if q:
         bounds["enum3"] = "3 styles: 5^3 basedOn graphs x 2^3 masks of x, y exactly where x is not x 4 queried ids"
     else:
-        cases = ctx.tlc_gen("StyleInh_MC.tla", enumcfg(ctx, "enum3.cfg", 3, ["free"], "clone"), "enum3", timeout=900)
         bounds["enum3"] = "3 styles: 5^3 basedOn graphs x 2^3 masks of x x 2^3 masks of y (independent) x 4 queried ids; tail: clone ops"
-    allobs = [exec_grouped(ctx, cases, "enum3")]
-    cases = ctx.tlc_gen("StyleInh_MC.tla", enumcfg(ctx, "rmr2.cfg", 2, ["compl"] if q else ["free"], "rmr+clone" if q else "rmr"),
-                        "rmr2", timeout=600)
-    bounds["rmr2"] = ("2 styles: every registry (y %s) x every queried style id: resolve, then every single AddStyle / "
-                      "RemoveStyle / CreateCustomStyle, then resolve again" % ("exactly where x is not" if q else "independent"))
+    judged(exec_grouped(ctx, cases_of("enum3"), "enum3"), "enum3")
+    bounds["rmr2"] = ("2 styles: every registry (y %s) x every queried style id x every single AddStyle / RemoveStyle / "
+                      "CreateCustomStyle / in-place edit mu: resolve, Clone (the copy is put aside unread), mu, resolve again, then "
+                      "on the copy: %s of the same id (its first read), Peek, mu, Peek"
+                      % ("exactly where x is not" if q else "independent", " / ".join(reads)))
+    bounds["alias2"] = ("2 styles: every based-on graph in which a style refers to its parent by an alias (display name, other "
+                        "letter case, added blank) of a style x masks x every style id and every alias used as queried id: "
+                        "Load, Resolve, ToXML, Info")
+    bounds["xml2"] = ("2 styles: every registry written as a styles part (XML) x each loader (ParseStylesFromXML, MergeStylesFromXML, "
+                      "LoadStylesFromDocument) x every queried style id: LoadXML, Resolve, ToXML, Info")
     if q:
-        bounds["rmr2"] += "; and the same registries x 3 queried ids with tail: clone ops, resolution on the clone"
-    allobs.append(exec_grouped(ctx, cases, "rmr2"))
+        bounds["rmr2"] += "; and every registry x 3 queried ids with tail: clone ops, resolution on the clone"
+    judged(exec_grouped(ctx, cases_of("rmr2"), "rmr2"), "rmr2", 2)
     if not q:
-        cases = ctx.tlc_gen("StyleInh_MC.tla", enumcfg(ctx, "enum4.cfg", 4, ["compl"], "none"), "enum4", timeout=1200)
         bounds["enum4"] = "4 styles: 6^4 basedOn graphs x 2^4 masks of x, y exactly where x is not x 5 queried ids"
-        obs = exec_grouped(ctx, cases, "enum4")
-        judge(ctx, obs, "enum4")
-        judge(ctx, allobs.pop(0), "enum3")
+        judged(exec_grouped(ctx, cases_of("enum4"), "enum4"), "enum4")
     ctx.exhaustive = True
 
-    d = 7 if q else 12
-    sim = ctx.tlc_gen("StyleInh_MC.tla", simcfg(ctx, "gen_sim.cfg", 3 if q else 4, d), "sim", mode="sim",
-                      num=45 if q else 400, depth=d + 1, limit=1500 if q else 12000)
-    bounds["sim"] = "%d random operation sequences of length %d over %d styles, all 10 operations" % (len(sim), d, 3 if q else 4)
-    allobs.append(ctx.run_exec("styleinh", sim, "sim", shards=12))
-    if allobs:
-        # one judge run over the remaining observation files (TLC start-up dominates small runs)
-        merged = {}
-        for t in list(ctx.cases_by_tag):
-            merged.update(ctx.cases_by_tag[t])
-        ctx.cases_by_tag["all"] = merged
-        obs = os.path.join(ctx.work, "all.obs.ndjson")
-        with open(obs, "w") as out:
-            for p in allobs:
-                with open(p) as f:
-                    out.write(f.read())
-        judge(ctx, obs, "all")
+    sim = cases_of("sim")
+    bounds["sim"] = ("%d random operation sequences of length %d over %d styles, all %d operations (those on the copy included), "
+                     "alias kinds %s" % (len(sim), d, 3 if q else 4, len(ALLOPS), "/".join(kinds)))
+    judged(ctx.run_exec("styleinh", sim, "sim", shards=12), "sim")
+    bg.join()
     ctx.extra_cov["bounds"] = bounds
     ctx.extra_cov["variants_per_behaviour"] = 20
-    ctx.extra_cov["exhaustive_scope"] = ("all (registry, queried id) inputs of bounds.enum*/rmr* are enumerated and executed; resolver "
+    ctx.extra_cov["exhaustive_scope"] = ("all (registry, queried id) inputs / histories of bounds.enum*/rmr*/alias*/xml* are enumerated and executed; resolver "
                                          "calls counted as skipped in op_outcomes were not executed (budget rule after a call that "
                                          "did not return); the random sequences (bounds.sim) are a sample, not exhaustive")
     return ctx.finish(LEVEL, RULE)
